@@ -320,6 +320,27 @@ Theorem C12_gen_flow_filters :
 Proof. exact gen_flow_filters. Qed.
 Print Assumptions C12_gen_flow_filters.
 
+(* wiring of the six flows, post-processors: the model's table (which flow stages eligible results, enqueues retries, records ineligible ones, stores proposals) is what each constructor in pkg/v3/flows hands to NewRunnableObserver *)
+Theorem C12_gen_flow_postprocessors :
+  forall k,
+  has_stage k = memZ 1 (post_of k) /\ has_retry k = memZ 2 (post_of k) /\
+  has_inelig k = memZ 3 (post_of k) /\ has_prop k = memZ 4 (post_of k).
+Proof. exact gen_wiring_post. Qed.
+Print Assumptions C12_gen_flow_postprocessors.
+
+(* wiring of the six flows, pre-processors: the coordinator comes first in every flow; the two proposal flows add the proposal filterer *)
+Theorem C12_gen_flow_preprocessors :
+  forall k,
+  hd (-1) (pre_of k) = 0 /\ memZ 5 (pre_of k) = has_prop k.
+Proof. exact gen_wiring_pre. Qed.
+Print Assumptions C12_gen_flow_preprocessors.
+
+(* the factories hand every flow constructor a slice holding exactly the coordinator *)
+Theorem C12_gen_flow_factories :
+  g_wire_factory_log = [0; 0; 0] /\ g_wire_factory_cond = [0; 0].
+Proof. exact gen_wiring_factories. Qed.
+Print Assumptions C12_gen_flow_factories.
+
 End GenTie.
 
 (* Non-vacuity: payloads [B; A] with A cached and B failing retryably — the hypotheses of
